@@ -351,6 +351,8 @@ def parent(args):
     unmet = {k: (counters.get(k, 0), m) for k, m in required.items() if counters.get(k, 0) < m}
     if evaluations == 0:
         unmet['evaluations'] = (0, 1)
+    if not samples:
+        unmet['samples_recorded'] = (0, 1)
     exh_all = bool(exhaustive) and all(exhaustive.values()) and not problems
     wall = round(time.time() - t0, 2)
     level = getattr(mod, 'LEVEL', 'exploration')
